@@ -69,16 +69,22 @@ LastLeafIsSep(s) ==
       \/ t.k = "sep"
       \/ t.k = "alt" /\ \E x \in DOMAIN t.bs : LastLeafIsSep(t.bs[x])
       \/ t.k = "rep" /\ LastLeafIsSep(t.bd)
-(* a tree wildcard immediately followed by a branch token (KF10) *)
+(* a tree wildcard followed by a branch token with nothing between them but tokens that the   *)
+(* exhaustiveness analysis keeps in its suffix (separators, zero-or-more wildcards, tree        *)
+(* wildcards, branch tokens): the branch's content is then not examined (KF10)                  *)
+KeptKind(t) == t.k \in {"sep", "zom", "tree", "alt", "rep"}
+BranchAfter(s, j) == \E k \in (j + 1)..Len(s) :
+   /\ s[k].k \in {"alt", "rep"}
+   /\ \A i \in (j + 1)..(k - 1) : KeptKind(s[i])
 RECURSIVE TreeThenBranch(_)
 TreeThenBranch(s) == \E j \in DOMAIN s :
-   \/ s[j].k = "tree" /\ j < Len(s) /\ s[j + 1].k \in {"alt", "rep"}
+   \/ s[j].k = "tree" /\ BranchAfter(s, j)
    \/ s[j].k = "alt" /\ \E x \in DOMAIN s[j].bs : TreeThenBranch(s[j].bs[x])
    \/ s[j].k = "rep" /\ TreeThenBranch(s[j].bd)
-(* an unbounded repetition immediately followed by a branch token (KF33) *)
+(* the same with an unbounded repetition in place of the tree wildcard (KF33) *)
 RECURSIVE RepThenBranch(_)
 RepThenBranch(s) == \E j \in DOMAIN s :
-   \/ s[j].k = "rep" /\ s[j].hi = INF /\ j < Len(s) /\ s[j + 1].k \in {"alt", "rep"}
+   \/ s[j].k = "rep" /\ s[j].hi = INF /\ BranchAfter(s, j)
    \/ s[j].k = "alt" /\ \E x \in DOMAIN s[j].bs : RepThenBranch(s[j].bs[x])
    \/ s[j].k = "rep" /\ RepThenBranch(s[j].bd)
 (* an unbounded repetition whose body contains a branch token (KF10) *)
